@@ -721,6 +721,9 @@ func minimise(t *testing.T, p *Plan, v Violation) (*Plan, minimStat, Violation) 
 	if v.Oracle == "race" {
 		runPlan, budget = runPlanIsolated, 120
 	}
+	if p.Engine == "convert" {
+		budget = 40 // every rerun enumerates the crash points again, and there are no operations to drop
+	}
 	try := func(c *Plan) bool {
 		if st.Reruns >= budget {
 			return false
